@@ -677,6 +677,15 @@ func (db *ContractDB) loadFile(path, pkgPath string) {
 			db.Funcs[key] = fc
 			cur, curLoop, curOn = fc, nil, nil
 			curTI = nil
+		case "monitor":
+			fs := strings.Fields(rest)
+			if len(fs) != 2 {
+				errf(l.no, "monitor: want 'monitor <Type> <lockField>'")
+				continue
+			}
+			curTI = &TypeInv{Type: normalizeFuncName(fs[0]), Lock: fs[1], Pkg: pkgPath, Skip: map[string]string{}, Only: map[string]bool{}, File: path, Line: l.no}
+			db.TypeInvs = append(db.TypeInvs, curTI)
+			cur, curLoop, curOn = nil, nil, nil
 		case "typeinv":
 			curTI = &TypeInv{Type: normalizeFuncName(strings.TrimSpace(rest)), Pkg: pkgPath, Skip: map[string]string{}, Only: map[string]bool{}, File: path, Line: l.no}
 			db.TypeInvs = append(db.TypeInvs, curTI)
@@ -686,7 +695,9 @@ func (db *ContractDB) loadFile(path, pkgPath string) {
 				switch kw {
 				case "property":
 					curTI.Props = append(curTI.Props, strings.Fields(rest)...)
-				case "fields":
+				case "stable":
+					curTI.Stable = append(curTI.Stable, strings.FieldsFunc(rest, func(r rune) bool { return r == ',' || r == ' ' })...)
+				case "fields", "protects":
 					curTI.Fields = append(curTI.Fields, strings.FieldsFunc(rest, func(r rune) bool { return r == ',' || r == ' ' })...)
 				case "inv":
 					if c := parseClause("inv", rest, l.no); c != nil {
